@@ -309,6 +309,32 @@ def build_harness(name: str, sources: list[str], cfg: str = "plain", verbose: bo
         return exe
 
 
+def build_harnesses(items: list[tuple[str, list[str]]], cfg: str = "plain", verbose: bool = True) -> None:
+    """Compile the sources of many harnesses in ONE parallel pool (setup), then link each through build_harness
+    (which finds every object up to date)."""
+    with Lock(cfg):
+        build_tree(cfg, verbose)
+        flags = base_flags(cfg) + ["-I", str(VERIF / "harness")]
+        pch_flags = build_pch(cfg)
+        objdir = BUILD_ROOT / cfg / "hobj"
+        srcs = sorted({s for _, ss in items for s in ss})
+        t0 = time.time()
+        errors: list[str] = []
+        with cf.ThreadPoolExecutor(max_workers=JOBS) as ex:
+            futs = [ex.submit(compile_one, str(VERIF / "harness" / s), objdir / (s.replace("/", "__") + ".o"), flags, pch_flags) for s in srcs]
+            for f in futs:
+                try:
+                    f.result()
+                except BuildError as e:
+                    errors.append(str(e))
+        if errors:
+            raise BuildError("\n".join(errors[:3]))
+        if verbose:
+            print(f"[build] {len(srcs)} harness sources compiled in {time.time()-t0:.1f}s", file=sys.stderr)
+    for name, ss in items:
+        build_harness(name, ss, cfg=cfg, verbose=verbose)
+
+
 def file_hash_nocache(p: str) -> str:
     with open(p, "rb") as f:
         return _sha(f.read())
